@@ -18,15 +18,17 @@ from vlib.zsym import Real, SymNum, SymTypeError, lift, model_value
 META = {
     "level": "other",
     "explanation": "bounded symbolic verification of the advertised Euler step only: the real closure returned by get_odesys is executed "
-                   "with symbolic state y >= 0 and an arbitrary symbolic derivative vector; z3 proves the step keeps every concentration "
-                   "in [0, upper bound] (upper bounds from the real upper_conc_bounds, infinite for species without elemental "
-                   "composition) and 0 <= h <= 1",
-    "bounds": {"quick": "systems with <= 4 substances (3^n sign patterns x min comparisons paths each), incl. species without composition",
-               "thorough": "systems with <= 5 substances"},
+                   "with a symbolic state y >= 0 and the derivative N^T r for ARBITRARY non-negative reaction rates r (a superset of the "
+                   "mass-action right-hand side: r_j = 0 whenever a reactant of reaction j is absent); z3 proves 0 <= h <= 1 and that the step "
+                   "keeps every concentration in [0, elemental upper bound], the bound being written independently from the compositions "
+                   "(total_e / atoms_e for every element of the species) - for the answer to a query that follows an earlier query of the "
+                   "same callback and for the same query repeated on the caller's own array, which must be left as supplied",
+    "bounds": {"quick": "24 systems with <= 5 substances, incl. species without composition",
+               "thorough": "90 systems with <= 5 substances (6-substance systems hit solver timeouts on single paths and were dropped)"},
     "assumptions": [
-        "stubs on the captured instances: odesys.to_arrays/pre_process identity, odesys.f_cb returns arbitrary reals (division by a zero "
-        "derivative follows numpy float64 semantics, as for the arrays the real callback returns), "
-        "rsys.upper_conc_bounds(y) -> the real method with dtype=object",
+        "stubs on fresh instances per path: odesys.to_arrays/pre_process pass-through (an ndarray is handed on unchanged, like the real "
+        "conversion), odesys.f_cb returns N^T r (division by a zero derivative follows numpy float64 semantics, as for the arrays the real "
+        "callback returns), rsys.upper_conc_bounds(y) -> the real method with dtype=object",
         "integration accuracy vs matrix exponentials / closed forms, non-negativity of integrated trajectories: delegated to "
         "LSODA/CVODE through pyodesys - not applicable (no symbolic value survives the C boundary)",
     ],
@@ -62,7 +64,12 @@ def run(yv, fv):
     arr = np.array(yv, dtype=float)
     h1 = cb(0, arr)                                # the query, state given as the caller's own array
     h2 = cb(0, arr)                                # and once more on the same array
-    ub = rsys.upper_conc_bounds(yv)
+    if list(arr) != list(yv): bad.append("y=%%s: the queries changed the caller's state array to %%s (an integration started from it would begin elsewhere)" %% (yv, list(arr)))
+    tot = {}
+    for n, yi in zip(names, yv):
+        for e, a in rsys.substances[n].composition.items():
+            if e != 0: tot[e] = tot.get(e, 0.0) + a * yi
+    ub = [min([tot[e] / a for e, a in rsys.substances[n].composition.items() if e != 0] or [float("inf")]) for n in names]   # independent of upper_conc_bounds
     for label, h in (("first query", h1), ("repeated query on the same array", h2)):
         if not (h == h and 0 <= h <= 1): bad.append("y=%%s f=%%s %%s: h = %%r outside [0, 1]" %% (yv, fv, label, h))
         for n, yi, fi, u in zip(names, yv, fv, ub):
@@ -76,8 +83,22 @@ names0 = list(ReactionSystem.from_string("\\n".join(s + "; 1" for s in rxn_strs)
 points = [([float(y[n]) for n in names0], [float(f[n]) for n in names0])]
 if soft:   # the candidate came from a path the number wrapper could not carry: also look at two generic points (witness search)
     n_ = len(names0)
-    points.append(([0.3 + 0.2 * i for i in range(n_)], [(-1.0) ** i * (0.5 + i) for i in range(n_)]))
-    points.append(([1.5 - 0.1 * i for i in range(n_)], [(-1.0) ** (i + 1) * (2.0 + 0.5 * i) for i in range(n_)]))
+    rs0 = ReactionSystem.from_string("\\n".join(s + "; 1" for s in rxn_strs), substance_factory=Substance.from_formula)
+    def ntr(rates):   # derivative N^T r for generic non-negative reaction rates
+        return [sum((rx.prod.get(n, 0) + rx.inact_prod.get(n, 0) - rx.reac.get(n, 0) - rx.inact_reac.get(n, 0)) * rj for rx, rj in zip(rs0.rxns, rates)) for n in names0]
+    points.append(([0.3 + 0.2 * i for i in range(n_)], ntr([0.5 + j for j in range(rs0.nr)])))
+    points.append(([1.5 - 0.1 * i for i in range(n_)], ntr([2.0 + 0.5 * j for j in range(rs0.nr)])))
+    seed_ = 12345
+    def nxt():
+        global seed_
+        seed_ = (1103515245 * seed_ + 12345) %% 2 ** 31
+        return seed_ / 2.0 ** 31
+    for _ in range(40):   # deterministic pseudo-random states (some species absent) and rates
+        yv_ = [0.0 if nxt() < 0.3 else round(2 * nxt(), 3) for _i in range(n_)]
+        rates_ = [round(3 * nxt(), 3) for _j in range(rs0.nr)]
+        for j_, rx in enumerate(rs0.rxns):
+            if any(yv_[names0.index(k)] == 0 for k in rx.reac): rates_[j_] = 0.0
+        points.append((yv_, ntr(rates_)))
 for yv, fv in points:
     run(yv, fv)
 for b in bad[:8]: print("MISMATCH", b)
@@ -95,7 +116,7 @@ def _task_euler(systems):
     from chempy.kinetics.ode import get_odesys
 
     res = dict(engine="Z", functions=[env.describe(get_odesys), env.describe(ReactionSystem.upper_conc_bounds)], obligations=0, discharged=0,
-               violations=[], inconclusive=[], queries=0, paths=0, solver_s=0.0, bounds="%d systems; all y >= 0, all real f" % len(systems))
+               violations=[], inconclusive=[], queries=0, paths=0, solver_s=0.0, bounds="%d systems; all y >= 0, derivative N^T r for all r >= 0" % len(systems))
     tw = None
     import numpy as np
 
@@ -107,8 +128,16 @@ def _task_euler(systems):
             continue
         names = list(rsys0.substances)
         y = [Real("y_%d" % i) for i in range(len(names))]
-        f = [Real("f_%d" % i) for i in range(len(names))]
-        assum = [v.t >= 0 for v in y]
+        # the derivative is N^T r for ARBITRARY non-negative reaction rates r (a superset of what the mass-action right-hand side can
+        # produce: each r_j vanishes when one of its reactants is absent); N is read from the reaction dictionaries
+        r_ = [Real("r_%d" % j) for j in range(rsys0.nr)]
+        Nmat = [[rx.prod.get(n, 0) + rx.inact_prod.get(n, 0) - rx.reac.get(n, 0) - rx.inact_reac.get(n, 0) for n in names] for rx in rsys0.rxns]
+        f = [sum(Nmat[j][i] * r_[j] for j in range(rsys0.nr)) for i in range(len(names))]
+        f = [v if isinstance(v, SymNum) else SymNum(lift(v)) for v in f]
+        assum = [v.t >= 0 for v in y] + [v.t >= 0 for v in r_]
+        for j, rx in enumerate(rsys0.rxns):
+            for n in rx.reac:
+                assum.append(z3.Implies(y[names.index(n)].t == 0, r_[j].t == 0))
 
         def fn():
             # fresh objects on every path (nothing a previous path left in a closure or on the system can leak into this one)
@@ -135,25 +164,30 @@ def _task_euler(systems):
             arr = np.array(y, dtype=object)
             h1 = cb(0, arr)
             h2 = cb(0, arr)
-            ub = real_ub(list(y), dtype=object)
-            return (h1, h2), ub
+            return (h1, h2), list(arr)
+
+        # the elemental upper bound written independently from the compositions (NOT taken from upper_conc_bounds, which is code under test):
+        # y_i <= total_e / atoms_e for every element e of species i
+        comps = [{e: a for e, a in rsys0.substances[n].composition.items() if e != 0} for n in names]
+        elems = sorted(set().union(*[set(d) for d in comps])) if comps else []
+        tot = {e: sum(comps[i][e] * y[i] for i in range(len(names)) if e in comps[i]) for e in elems}
 
         def goal(p, twin=False):
             if p.kind == "exc":
                 return False
-            hs, ub = p.value
-            conds = []
+            hs, after = p.value
+            # the caller's state array is what an integration started next would begin from: the queries leave it as supplied
+            conds = [eq_term(a_, b_) for a_, b_ in zip(after, y)]
             for h in hs:
                 ht = lift(h)
                 if ht is None:
                     return False  # h is not a finite number (inf / nan): the step is useless or unsafe
                 conds += [ht >= 0, ht <= (1 if not twin else z3.Q(1, 2))]
-                for yi, fi, u in zip(y, f, ub):
+                for i_, (yi, fi) in enumerate(zip(y, f)):
                     new = yi.t + ht * fi.t
                     conds.append(new >= 0)
-                    ut = lift(u)
-                    if ut is not None:
-                        conds.append(new <= ut)
+                    for e, a in comps[i_].items():
+                        conds.append(new * a <= lift(tot[e]))
             return z3.And(*conds)
 
         o = explore_and_prove(fn, assum, goal, max_paths=200000, deadline_s=DEADLINE[0], timeout_ms=30000, numpy_div=True)
@@ -165,14 +199,14 @@ def _task_euler(systems):
         res["inconclusive"] += o.inconclusive
         for p, m, g in o.failed[:1]:
             yv = dict(zip(names, concretize(m, y)))
-            fv = dict(zip(names, concretize(m, f)))
+            fv = dict(zip(names, concretize(m, f)))  # N^T r at the model's rates
             res["violations"].append(dict(key="euler_step:%s" % p.kind, soft=wrapper_exc(p.value), desc="system %s y=%s f=%s -> %r" % (rxn_strs, yv, fv, p.value),
                                           replay_src=REPLAY % dict(rxns=rxn_strs, y=pyrepr(yv), f=pyrepr(fv), soft=bool(wrapper_exc(p.value)))))
         if tw is None:
             ot = explore_and_prove(fn, assum, lambda p: goal(p, True), max_paths=60000, deadline_s=60, max_fail=1, numpy_div=True)
             tw = twin_verdict(ot)
     res["twin"] = tw or "n/a"
-    res["sample"] = {"system": systems[0], "state": "symbolic y >= 0", "derivative": "arbitrary symbolic f"}
+    res["sample"] = {"system": systems[0], "state": "symbolic y >= 0", "derivative": "N^T r, r >= 0 symbolic"}
     res["status"] = "violation" if res["violations"] else ("inconclusive" if res["inconclusive"] else "discharged")
     return res
 
@@ -180,7 +214,7 @@ def _task_euler(systems):
 def tasks(tier, seed):
     from chempy import ReactionSystem, Substance
 
-    maxn = 4 if tier == "quick" else 5
+    maxn = 5
     cand = EXTRA + gen.kin_systems(tier, seed)
     systems = []
     for s in cand:
@@ -190,6 +224,6 @@ def tasks(tier, seed):
             continue
         if rs.ns <= maxn and s not in systems:
             systems.append(s)
-    systems = systems[: (10 if tier == "quick" else 32)]
-    n = min(len(systems), 10 if tier == "quick" else 16)
+    systems = systems[: (24 if tier == "quick" else 90)]
+    n = min(len(systems), 12 if tier == "quick" else 16)
     return [dict(id="C06.euler.%02d" % i, fn="task_euler", kwargs=dict(systems=systems[i::n], deadline=400 if tier == "quick" else 900), timeout=2400 if tier == "quick" else 4000) for i in range(n)]
